@@ -286,3 +286,88 @@ func Run(sc Scenario) Outcome {
 	}
 	return out
 }
+
+// SweepOutcome: packets of the given payload sizes sent through the real TLSTransport.WriteTo to a healthy endpoint.
+type SweepOutcome struct {
+	Skipped      string `json:"skipped,omitempty"`
+	Sent         int    `json:"sent"`    // WriteTo returned nil
+	Arrived      int    `json:"arrived"` // read back intact by the endpoint
+	SmallestLost int    `json:"smallest_lost"`
+	LastErr      string `json:"last_err,omitempty"`
+}
+
+// Sweep sends one packet of every given size (what memberlist hands to the transport: single messages and compound
+// packets filled up to UDPBufferSize = MaxGossipPacketSize) and reports which arrived. No restarts: every packet
+// the sender accepted must arrive.
+func Sweep(sizes []int) SweepOutcome {
+	var out SweepOutcome
+	dir, err := os.MkdirTemp("", "verif-tlssweep-")
+	if err != nil {
+		out.Skipped = "no temp dir: " + err.Error()
+		return out
+	}
+	defer os.RemoveAll(dir)
+	cert, cf, kf, err := writeCert(dir)
+	if err != nil {
+		out.Skipped = "certificate: " + err.Error()
+		return out
+	}
+	lg := slog.New(slog.NewTextHandler(io.Discard, nil))
+	ctx, cancel := context.WithCancel(context.Background())
+	defer cancel()
+	sender, err := cluster.NewTLSTransport(ctx, lg, prometheus.NewRegistry(), "127.0.0.1", 0, &cluster.TLSTransportConfig{
+		TLSServerConfig: &web.TLSConfig{TLSCertPath: cf, TLSKeyPath: kf},
+		TLSClientConfig: &config.TLSConfig{InsecureSkipVerify: true},
+	})
+	if err != nil {
+		out.Skipped = "sender transport: " + err.Error()
+		return out
+	}
+	defer sender.Shutdown()
+	l, err := net.Listen("tcp", "127.0.0.1:0")
+	if err != nil {
+		out.Skipped = "no free port: " + err.Error()
+		return out
+	}
+	addr := l.Addr().String()
+	l.Close()
+	packets := make(chan []byte, 4096)
+	ep, err := startEndpoint(addr, cert, packets)
+	if err != nil {
+		out.Skipped = "endpoint: " + err.Error()
+		return out
+	}
+	defer ep.stop()
+	var sent [][]byte
+	for i, n := range sizes {
+		p := payload(i, n)
+		if _, err := sender.WriteTo(p, addr); err != nil {
+			out.LastErr = err.Error()
+			continue
+		}
+		out.Sent++
+		sent = append(sent, p)
+	}
+	got := map[string]bool{}
+	deadline := time.After(10 * time.Second)
+loop:
+	for len(got) < len(sent) {
+		select {
+		case p := <-packets:
+			got[string(p)] = true
+		case <-deadline:
+			break loop
+		case <-time.After(1500 * time.Millisecond): // nothing more is coming
+			break loop
+		}
+	}
+	out.SmallestLost = -1
+	for _, p := range sent {
+		if got[string(p)] {
+			out.Arrived++
+		} else if out.SmallestLost < 0 || len(p) < out.SmallestLost {
+			out.SmallestLost = len(p)
+		}
+	}
+	return out
+}
